@@ -362,9 +362,38 @@ fn cpi(instruction: &Instruction, account_infos: &[AccountInfo], signers_seeds: 
         spl_token_2022::processor::Processor::process(&pid, &callee_ais, &instruction.data)
     } else if pid == system_program::id() {
         system_process(&callee_ais, &instruction.data)
+    } else if pid == drift_mocks::ID {
+        // harness stand-in for the Drift program (venue.rs)
+        crate::venue::drift_process(&callee_ais, &instruction.data)
     } else {
         CTX.with(|c| c.borrow_mut().unsupported_cpi = true);
         Err(ProgramError::from(ERR_UNSUPPORTED_PE))
+    };
+    CTX.with(|c| {
+        let mut c = c.borrow_mut();
+        c.program_stack.pop();
+        c.stack_height -= 1;
+    });
+    res
+}
+
+/// A token-program call made by a harness stand-in program (venue.rs) on accounts it received: registered like a
+/// CPI into the token program, so that the runtime's "only the owner changes data" post-condition sees it.
+pub fn nested_token_call(token_program: &Pubkey, ais: &[AccountInfo], data: &[u8]) -> ProgramResult {
+    let pid = *token_program;
+    let writes: Vec<Pubkey> = ais.iter().filter(|a| a.is_writable).map(|a| *a.key).collect();
+    CTX.with(|c| {
+        let mut c = c.borrow_mut();
+        c.program_stack.push(pid);
+        c.stack_height += 1;
+        c.cpi_writes.push((pid, writes));
+    });
+    let res = if pid == spl_token::id() {
+        spl_token::processor::Processor::process(&pid, ais, data)
+    } else if pid == spl_token_2022::id() {
+        spl_token_2022::processor::Processor::process(&pid, ais, data)
+    } else {
+        Err(ProgramError::IncorrectProgramId)
     };
     CTX.with(|c| {
         let mut c = c.borrow_mut();
